@@ -252,14 +252,10 @@ pub fn serve_credssp(io: &mut ServerIo, srv: &Value) -> bool {
     let mut s2c = SecCtx::new(&key, false);
     io.log(json!({"ev": "nla_keys", "exported": key.clone()}));
     let client_pub = match c2s.unwrap(&pka) { Some(p) => p, None => { io.log(json!({"ev": "nla_note", "what": "client pubKeyAuth does not verify under the account's keys"})); return false; } };
-    let reply = crate::nlafault::final_reply(srv, &client_pub, &io.cert_der.clone(), &key, &mut s2c, &pka);
-    if io.send(&ts_request(version, None, None, reply.as_deref()), "TsReqPubKeyAuth").is_err() { return false; }
-    if let Some(e) = io.events.last_mut() { e.as_object_mut().unwrap().insert("honest".into(), json!(crate::nlafault::is_honest(srv))); }
-    if !crate::nlafault::is_honest(srv) {
-        // the client must refuse: whatever it still writes is logged
-        io.drain(400);
-        return false;
-    }
+    let req = crate::nlafault::final_request(srv, version, &client_pub, &key, &mut s2c, &pka);
+    if io.send(&req, "TsReqPubKeyAuth").is_err() { return false; }
+    if let Some(e) = io.events.last_mut() { e.as_object_mut().unwrap().insert("fault".into(), json!(crate::nlafault::kind_of(srv))); }
+    // uniform observation whatever was sent: the client either closes (EOF) or sends its third TSRequest
     let r3 = match io.recv_der() { Ok(b) => b, Err(_) => return false };
     let t3 = match parse_ts_request(&r3) { Some(t) => t, None => return false };
     if let Some(ai) = t3.auth_info {
